@@ -16,7 +16,7 @@ ASSUMPTIONS = ["E5's validator decides which documents are valid (all 29 June-20
 BUDGET_S = {"quick": 120, "thorough": 3000}
 DEPTH = {"quick": 2, "thorough": 3}
 SLICES = {"quick": 8, "thorough": 32}
-KINDS = ("R3", "R5", "R6", "R8", "R10", "R11", "R14", "R15", "R16", "R4")
+KINDS = ("R3", "R5", "R6", "R8", "R10", "R11", "R14", "R15", "R16", "R4", "R17")
 LEVEL2_QUICK = ("R3", "R5", "R6", "R8L", "R14", "R15")
 
 SEEDS = [
@@ -32,6 +32,7 @@ SEEDS = [
     "{ pet { ... on Node { id ...PN } } } fragment PN on Node { name ... on A { a } }",
     "mutation M($b: Int = 1) { inc(by: $b) ...MF } fragment MF on Mutation { set(v: \"s\") { id } }",
     "{ __schema { queryType { name } } __type(name: \"A\") { name } num }",
+    "{ lst two hello a { echo } }",
 ]
 
 
